@@ -6,5 +6,5 @@ CONSTANTS
   MaxOps = 2
   ShapeSet = "large"
   MCTypes = {"UNDEF", "S", "T", "Y", "ZIN", "BAD"}
-INVARIANTS TypeOK DimsFitType RefusedCallsChangeNothing GettersDontModify IndexRule SetThenGet ExposedIsInitial InitIsFresh ModeRules ConvertRules ShrinkRegrow
+INVARIANTS TypeOK DimsFitType RefusedCallsChangeNothing GettersDontModify IndexRule SetThenGet ExposedIsInitial InitIsFresh ModeRules ConvertRules ShrinkRegrow AuxRules
 CHECK_DEADLOCK FALSE
